@@ -1,6 +1,7 @@
 //! Correspondence harness: runs the litep2p implementation on generated / stored cases and
 //! prints one canonical trace per case in the "list of N" wire format of coq/common/Wire.v.
 mod c05;
+mod c12;
 mod c17;
 mod util;
 
@@ -14,6 +15,7 @@ fn main() {
     util::silence_panics();
     match argv[1].as_str() {
         "c05" => c05::main(&args),
+        "c12" => c12::main(&args),
         "c17" => c17::main(&args),
         other => {
             eprintln!("unknown property {other}");
